@@ -6,7 +6,7 @@ import { evalSemantic, firstDiff, eraseHints } from './semantic.mjs';
 export const id = 'C05';
 
 export const HOSTS = ['inputNoType', 'inputText', 'inputCheckbox', 'inputRadio', 'inputDynamic', 'inputBracedConst', 'inputOtherStatic', 'select', 'textarea', 'component', 'componentUnbound'];
-export const TARGETS = ['ident', 'member', 'index', 'deepMember'];
+export const TARGETS = ['ident', 'member', 'index', 'deepMember', 'memberOfCall', 'indexOfCallMember', 'thisLikeChain'];
 export const ARGS = ['none', 'ns', 'strSecond', 'computedSecond'];
 export const MODS = ['none', 'suffix1', 'suffix2', 'arrayList', 'arrayEmpty'];
 
@@ -42,6 +42,10 @@ function makeTarget(b, kind) {
     case 'member': b.pre.push(`const ${n} = { x: "init-${n}", other: "untouched" };`); return { src: `${n}.x`, guard: `${n}.other` };
     case 'index': b.pre.push(`const ${n} = ["init-${n}", "untouched"];`); return { src: `${n}[0]`, guard: `${n}[1]` };
     case 'deepMember': b.pre.push(`const ${n} = { a: { "b-c": "init-${n}" }, other: "untouched" };`); return { src: `${n}.a["b-c"]`, guard: `${n}.other` };
+    // member / index targets whose object is not a plain identifier chain
+    case 'memberOfCall': b.pre.push(`const ${n} = { x: "init-${n}", other: "untouched" };`, `const get_${n} = () => ${n};`); return { src: `get_${n}().x`, guard: `${n}.other` };
+    case 'indexOfCallMember': b.pre.push(`const ${n} = { items: ["init-${n}", "untouched"] };`, `const get_${n} = () => ${n};`); return { src: `get_${n}().items[0]`, guard: `${n}.items[1]` };
+    case 'thisLikeChain': b.pre.push(`const ${n} = { a: [{ v: "init-${n}" }], other: "untouched" };`); return { src: `(${n}).a[0].v`, guard: `${n}.other` };
     default: throw new Error(kind);
   }
 }
